@@ -16,7 +16,7 @@ PID = 'C19'
 TIMEOUT = 180.0
 CALL_TIMEOUT = 15.0
 RULE = ('every (entry point, signal) pair; per pair: all accepted layouts (writable and read-only, called twice), all '
-        'rejected layouts, all length mismatches; plus every history of 3 read-only queries (12-query alphabet) on one cycle '
+        'rejected layouts, all length mismatches; plus every history of 3 read-only queries (16-query alphabet) on one cycle '
         'container, each answer compared with that of a fresh container; non-trivial = entry point has both accepted and rejected inputs')
 ASSUMPTIONS = ['the accepted / rejected layout sets are those of the property text: (n,), (n,1), (n,1,1) vs (n,2), (1,n), '
                '(n,2,3) for the single-signal sift routines; vector vs single column for transforms, envelope and cycle '
@@ -138,7 +138,7 @@ def entries():
                           dict(mode='lower', interp_method='pchip'), dict(mode='combined', ret_extrema=True)])
     # transforms
     for m in ('hilbert', 'nht', 'quad'):
-        add('frequency_transform:%s' % m, (lambda m_: lambda a, o: SP.frequency_transform(a, 100.0, m_, **o))(m), VC,
+        add('frequency_transform:%s' % m, (lambda m_: lambda a, o: SP.frequency_transform(a, 100.0, m_, **o))(m), SIFT_ACC,   # [n x 1 x 1] = second-level layout
             optdicts=lambda: [{}, dict(smooth_phase=None)])
     add('amplitude_normalise', lambda a, o: U.amplitude_normalise(a, **o), VC,
         optdicts=lambda: [{}, dict(max_iters=1), dict(clip=True, interp_method='splrep', max_iters=2), dict(thresh=1e-3, max_iters=8)])
@@ -207,13 +207,25 @@ def cases(tier, seed):
 
 
 QUERY_NAMES = ('stat:cycle', 'stat:augmented', 'stat:samples', 'align:cycle', 'align:augmented', 'ctrl:cycle', 'ctrl:augmented',
-               'iterate', 'iterate:augmented', 'inds:augmented', 'dataframe', 'matching')
+               'iterate', 'iterate:augmented', 'inds:augmented', 'dataframe', 'matching',
+               'stat:augmented:iter', 'align:augmented:iter', 'ctrl:augmented:iter', 'align:cycle:iter')
+# the same question asked with a pre-built iterator (C.iterate()) instead of the container itself: same answer
+SAME_ANSWER = (('stat:augmented:iter', 'stat:augmented'), ('align:augmented:iter', 'align:augmented'), ('ctrl:augmented:iter', 'ctrl:augmented'),
+               ('align:cycle:iter', 'align:cycle'))
 
 
 def run_query(qi, C, x, phase):
     import emd
     CY = emd.cycles
     q = QUERY_NAMES[qi]
+    if q == 'stat:augmented:iter':
+        return np.asarray(CY.get_cycle_stat(C.iterate(through='cycles'), x, func=np.max, mode='augmented'))
+    if q == 'align:augmented:iter':
+        return np.asarray(CY.phase_align(phase, x, cycles=C.iterate(through='cycles'), npoints=8, interp_kind='nearest', mode='augmented')[0])
+    if q == 'align:cycle:iter':
+        return np.asarray(CY.phase_align(phase, x, cycles=C.iterate(through='cycles', mode='augmented'), npoints=8, interp_kind='nearest', mode='cycle')[0])
+    if q == 'ctrl:augmented:iter':
+        return np.asarray(CY.get_control_points(x, C.iterate(through='cycles'), mode='augmented'))
     if q == 'stat:cycle':
         return np.asarray(CY.get_cycle_stat(C, x, func=np.max))
     if q == 'stat:augmented':
@@ -273,6 +285,35 @@ def check_queries(case):
         return emd.cycles.Cycles(phase.copy(), compute_timings=True)
     for qi in range(len(QUERY_NAMES)):
         fresh[qi] = answer(qi, new())
+    if first == 0:
+        for qa, qb in SAME_ANSWER:
+            a_, b_ = fresh[QUERY_NAMES.index(qa)], fresh[QUERY_NAMES.index(qb)]
+            ok = a_[0] == b_[0] and (a_[1] == b_[1] if a_[0] == 'raise' else same(a_[1], b_[1]))
+            if not ok:
+                viols.append(('route-changes-answer:%s' % qb.split(':')[0], 'Cycles on F_B%r: %s through a pre-built iterator (C.iterate()) differs from the same '
+                              'request on the container: %s vs %s' % (SIGNALS[si], qb, a_[0] if a_[0] == 'raise' else 'values', b_[0] if b_[0] == 'raise' else 'values')))
+    if first == 1:
+        # arrays that do not have the container's number of samples are rejected, whichever form `cycles` takes
+        CY = emd.cycles
+        for extra in (7, 1):
+            xl, pl = np.r_[x, x[:extra]], np.r_[phase, phase[:extra]]
+            for form in ('container', 'iterator'):
+                def cyc():
+                    C_ = new()
+                    return C_ if form == 'container' else C_.iterate(through='cycles')
+                for nm_, f_ in (('get_cycle_stat', lambda: CY.get_cycle_stat(cyc(), xl, func=np.max)),
+                                ('phase_align', lambda: CY.phase_align(pl, xl, cycles=cyc(), npoints=8)),
+                                ('get_control_points', lambda: CY.get_control_points(xl, cyc()))):
+                    try:
+                        with guard.watchdog(CALL_TIMEOUT):
+                            f_()
+                        viols.append(('mismatch:processed:%s' % form, '%s with cycles given as a %s and arrays %d sample(s) longer than the '
+                                      'recording was processed instead of rejected' % (nm_, form, extra)))
+                    except guard.CaseTimeout:
+                        raise
+                    except Exception:
+                        pass
+                    trans += 1
     x0, p0 = x.copy(), phase.copy()
     import itertools
     for rest in itertools.product(range(len(QUERY_NAMES)), repeat=depth - 1):
